@@ -130,9 +130,34 @@ def run_harness(sub, out_json, timeout=900, race=False, **kw):
 
 
 # ---------------------------------------------------------------- Coq
+COQPROJECT_HEAD = ("-Q . SeataV\n-arg -w -arg -notation-overridden,-deprecated-hint-without-locality,"
+                   "-deprecated-instance-without-locality\n")
+
+
+def gen_coqproject():
+    """_CoqProject lists every .v under coq/ (Run/ excluded: per-run case files);
+    regenerated so that adding a file needs no edit of a shared list"""
+    files = []
+    for root, dirs, fs in os.walk(COQ):
+        dirs[:] = [d for d in dirs if d != "Run"]
+        for f in fs:
+            if f.endswith(".v"):
+                files.append(os.path.relpath(os.path.join(root, f), COQ))
+    txt = COQPROJECT_HEAD + "\n".join(sorted(files)) + "\n"
+    p = os.path.join(COQ, "_CoqProject")
+    if not os.path.exists(p) or open(p).read() != txt:
+        open(p, "w").write(txt)
+        return True
+    return False
+
+
 def coq_setup():
+    import regen
+    if any(not os.path.exists(os.path.join(COQ, "Gen", out)) for _, out in regen.TABLES):
+        regen.all_tables()
     with Lock():
-        if not os.path.exists(os.path.join(COQ, "Makefile")) or \
+        changed = gen_coqproject()
+        if changed or not os.path.exists(os.path.join(COQ, "Makefile")) or \
            os.path.getmtime(os.path.join(COQ, "Makefile")) < os.path.getmtime(os.path.join(COQ, "_CoqProject")):
             rc, o = sh(["coq_makefile", "-f", "_CoqProject", "-o", "Makefile"], cwd=COQ)
             if rc != 0:
@@ -204,6 +229,96 @@ def theorem_names(vfile):
     return re.findall(r"^\s*(?:Theorem|Lemma|Corollary|Example)\s+(\w+)", src, flags=re.M)
 
 
+def proof_step(chk, prop_file, requires, extra_obligation_files=()):
+    """(A) of DESIGN section 1: full .vo build of the cone of Props/P_Cxx.v, then
+    Print Assumptions of every theorem in it (always re-run, also when make had
+    nothing to rebuild), forbidden-construct grep.  `requires` is the
+    `From SeataV Require Import ...` line needed to name the theorems.
+    Returns dict(ok, out, thms, n_closed). Fills the proof keys of chk.coverage."""
+    ok, out = coq_make([prop_file + "o"])
+    forbidden = grep_forbidden()
+    if forbidden:
+        raise Broken("forbidden constructs in the development: " + "; ".join(forbidden[:5]))
+    thms = theorem_names(prop_file)
+    extra = []
+    for f in extra_obligation_files:
+        extra += theorem_names(f)
+    n_closed = 0
+    if ok:
+        text = requires + "\n" + "\n".join("Print Assumptions %s." % t for t in thms) + "\n"
+        ok2, out2 = coq_eval("assume_%s_%d" % (chk.prop, os.getpid()), text)
+        cleanup_run("assume_%s_%d" % (chk.prop, os.getpid()))
+        if not ok2:
+            raise Broken("Print Assumptions run failed:\n" + out2[-1500:])
+        n_closed, closed = assumptions_closed(out2)
+        if not closed or n_closed != len(thms):
+            raise Broken("Print Assumptions reports axioms (or a theorem is missing):\n" + out2[-1500:])
+    chk.coverage.update({
+        "obligations": len(thms) + len(extra), "discharged": (len(thms) + len(extra)) if ok else 0,
+        "theorems": thms + extra, "print_assumptions_closed": n_closed,
+        "checker_cmd": "make -C coq %so (coqc 8.16.1, full .vo build of the dependency cone) + Print Assumptions of each theorem" % prop_file,
+    })
+    return {"ok": ok, "out": out, "thms": thms, "n_closed": n_closed}
+
+
+def cleanup_run(name):
+    for ext in (".v", ".vo", ".glob", ".vok", ".vos"):
+        try:
+            os.unlink(os.path.join(COQ, "Run", name + ext))
+        except OSError:
+            pass
+    try:
+        os.unlink(os.path.join(COQ, "Run", "." + name + ".aux"))
+    except OSError:
+        pass
+
+
+def eval_mismatches(prop, header, terms, fn="mismatches", case_type=None, shard=200, workers=12, timeout=1500):
+    """(B2) evaluate the model on observed cases inside Coq.  `terms[i]` is the Coq
+    term of case i; the Coq function `fn : list <case> -> list (nat * N)` returns
+    (index in the list, disagreement code) pairs.  Returns {case index: [codes]}."""
+    import concurrent.futures
+    groups = [list(range(i, min(i + shard, len(terms)))) for i in range(0, len(terms), shard)]
+    res = {}
+
+    def one(idx):
+        name = "cases_%s_%d_%d" % (prop, os.getpid(), idx[0])
+        ty = (" : list %s" % case_type) if case_type else ""
+        text = header + "\nDefinition cases%s := [\n" % ty + ";\n".join(terms[i] for i in idx) + \
+            "].\nDefinition M := Eval vm_compute in %s cases.\nPrint M.\n" % fn
+        ok, out = coq_eval(name, text, timeout=timeout)
+        if ok:
+            cleanup_run(name)
+        if not ok:
+            raise Broken("case evaluation failed in Coq (%s):\n%s" % (name, out[-2000:]))
+        printed = parse_coq_printed(out, "M")
+        if printed is None:
+            raise Broken("cannot parse Coq output:\n" + out[-2000:])
+        r = {}
+        for m in re.finditer(r"\((\d+)(?:%nat)?,\s*(\d+)(?:%N)?\)", printed):
+            r.setdefault(idx[int(m.group(1))], []).append(int(m.group(2)))
+        if printed != "[]" and not r:
+            raise Broken("unparsed mismatch list: " + printed[:300])
+        return r
+
+    with concurrent.futures.ThreadPoolExecutor(max_workers=workers) as ex:
+        for r in ex.map(one, groups):
+            res.update(r)
+    return res
+
+
+def coq_compute(prop, header, exprs, timeout=600):
+    """evaluate closed Coq expressions with vm_compute; returns the printed values (strings)"""
+    name = "compute_%s_%d" % (prop, os.getpid())
+    text = header + "\n" + "\n".join("Definition R%d := Eval vm_compute in (%s).\nPrint R%d." % (i, e, i)
+                                       for i, e in enumerate(exprs)) + "\n"
+    ok, out = coq_eval(name, text, timeout=timeout)
+    cleanup_run(name)
+    if not ok:
+        raise Broken("coq_compute failed:\n" + out[-2000:])
+    return [parse_coq_printed(out, "R%d" % i) for i in range(len(exprs))]
+
+
 # ---------------------------------------------------------------- Coq term printing
 def coq_hex(h):
     """a byte string as a Coq term: a list of Byte.byte constructors (4x cheaper
@@ -248,6 +363,15 @@ def known_findings(prop):
             continue
         kv["what"] = line.split("::", 1)[1].strip() if "::" in line else ""
         out.append(kv)
+    return out
+
+
+def fixed_entries(prop):
+    out = []
+    if os.path.exists(KNOWN):
+        for line in open(KNOWN):
+            if line.startswith("fixed:") and ("property=%s " % prop) in line:
+                out.append(line.strip())
     return out
 
 
